@@ -13,7 +13,7 @@ ANCHORS = ["src/pylife/strength/failure_probability.py"]
 SHARDS = {"quick": 8, "thorough": 16}
 WATCHDOG = {"quick": 900, "thorough": 3000}
 REQUIRED_CLASSES = {t: ["p<1e-9", "1e-9<=p<1e-3", "1e-3<=p<=0.999", "p>0.999", "load_scatter<<strength_scatter",
-                        "load_scatter>>strength_scatter", "medians_orders_apart"]
+                        "load_scatter>>strength_scatter", "medians_orders_apart", "load_scatter_tiny_absolute"]
                     for t in ("quick", "thorough")}
 REQUIRED_MONITORS = ["pf_norm_load==closed_form", "limit_load_scatter->0", "monotone_in_load_median", "monotone_in_strength_median",
                      "0<=p<=1", "pf_arbitrary_load_converges", "pf_simple_load==cdf", "fixed_probes==closed_form"]
@@ -99,6 +99,13 @@ def run_case(case, ctx):
     ctx.check("limit_load_scatter->0", abs(lim - el) <= 1e-6 * el + 1e-15 and abs(lim - simple) <= 1e-4 * max(simple, 1e-300) + 1e-15,
               observed={"pf_norm_load(s_L->0)": lim, "pf_simple_load": simple}, expected=el,
               tags=["c15_quad_default_absolute_tolerance"] if el < 1e-7 else [])
+    # ... and for scatters that are tiny in absolute terms (a practically deterministic load given as a distribution)
+    ctx.tag("load_scatter_tiny_absolute")
+    for tiny2 in (1e-7, 1e-9, 1e-14, 1e-30):
+        lim2 = float(fp.pf_norm_load(L, tiny2))
+        ctx.check("limit_load_scatter->0", abs(lim2 - simple) <= 1e-6 * max(simple, 1e-300) + 1e-15,
+                  observed={"pf_norm_load": lim2, "load_std": tiny2}, expected=simple,
+                  tags=["c15_quad_default_absolute_tolerance"] if simple < 1e-7 else [])
     # monotone in the medians
     up = float(fp.pf_norm_load(L * 1.05, sL))
     ctx.check("monotone_in_load_median", up >= got * (1 - 1e-6) - 1e-15, observed=[got, up], tags=mech)
